@@ -202,13 +202,16 @@ class C05:
             ok = ext_is(f, "MultiPoint", "multipoints") and args == (c,) and not kws
             why = "must be MultiPoint(coordinates)"
         elif name == "MultiLineString":
-            ok = ext_is(f, "MultiLineString", "multilinestrings") and args == (c,) and not kws
-            why = "must be MultiLineString(coordinates)"
+            ok = ext_is(f, "MultiLineString") and args == (c,) and not kws
+            why = ("must be MultiLineString(coordinates)" + (" -- the vectorised shapely.multilinestrings first packs the nested list into ONE numpy "
+                   "array, which exists only when every line has the same number of points: a valid MultiLineString with lines of different "
+                   "lengths raises instead of being converted" if ext_is(f, "multilinestrings") else ""))
         elif name == "Polygon":
             shell, holes = sub(0), ("sub", c, ("slice", ("const", 1), NONE, NONE))
             pa = list(args) + [kws.get(k) for k in ("shell", "holes") if k in kws]
-            ok = ext_is(f, "Polygon", "polygons") and pa == [shell, holes]
-            why = "must be Polygon(shell=coordinates[0], holes=coordinates[1:])"
+            ok = ext_is(f, "Polygon") and pa == [shell, holes]
+            why = ("must be Polygon(shell=coordinates[0], holes=coordinates[1:])" + (" -- the vectorised shapely.polygons packs the holes into one numpy "
+                   "array, which exists only when all interior rings have the same number of vertices" if ext_is(f, "polygons") else ""))
         elif name == "MultiPolygon":
             ok, why = self._multipolygon(fs, t, c)
         if ok:
